@@ -155,6 +155,15 @@ pub fn check_crash_dir(
         ..MemDir::default()
     }
     .materialise(dir);
+    // under arbitrary merge thresholds the post ops must stay delete-free as well (a delete
+    // followed by a partial merge and a reopen is the known finding D2 of C05)
+    let post_owned: Vec<Op>;
+    let post: &[Op] = if case_hist.cfg.small_file != u64::MAX {
+        post_owned = post.iter().filter(|o| !matches!(o, Op::Del(_))).cloned().collect();
+        &post_owned
+    } else {
+        post
+    };
     let a = &models[acked];
     let b = inflight.map(|i| &models[i + 1]);
     let mut ap = OpApplier::new(case_hist, dir);
